@@ -147,8 +147,9 @@ class Collector:
             lst.sort(key=lambda t: (t[0], t[1]))
             del lst[8:]
 
-    def flush(self, ctx, per_key=2):
-        for key in sorted(self.items):
+    def flush(self, ctx, per_key=2, priority=None):
+        prio = priority or (lambda k: 0)
+        for key in sorted(self.items, key=lambda k: (prio(k), k)):
             lst = sorted(self.items[key], key=lambda t: (t[0], t[1]))[:per_key]
             for size, _, what, obj in lst:
                 obj = dict(obj)
